@@ -7,6 +7,9 @@ claimed = {
  "C04": ("exploration", "§5 C04", "seeded sequences of valid, unusual and byte-mutated msgpack/line-protocol bodies against the real handlers under seeded flush schedules; oracle: every request answered, no task panics (background flush panics are caught by the scheduler), rejected requests store nothing, accepted valid requests stored with right values"),
  "C05": ("exploration", "§5 C05", "seeded crash points (every scheduling point, every file-system operation, torn WAL writes) during ingest and during start-up recovery, up to three crashes; oracle: rows durable at the first crash (independent WAL parser + Parquet) are stored after restart with the database, measurement, columns, values and time of a crash-free twin execution"),
  "C07": ("exploration", "§5 C07", "seeded back-pressure (tiny flush queue, slow storage, tiny WAL buffer), storage outages, mid-stream graceful shutdown and restart, then faults stop and a bounded simulated settling time; oracle: every acknowledged row stored exactly once"),
+ "C06": ("fault_enumeration", "§5 C06", "the real WAL Writer produces seeded logs under the simulator; every truncation offset and dense single-byte corruptions of every file are fed to the real Reader/Recovery; oracle: returned entries are an in-order subsequence of the appended entries (with database), complete entries before a truncation point are all returned, nothing altered or fabricated, no panic"),
+ "C08": ("fault_enumeration", "§5 C08", "seeded sequences of LocalBackend operations with adversarial keys routed through the real validators; the complete single-fault space (each mutating fs op x crash-before/after, torn write, EIO, ENOSPC) of each sequence is executed; oracle: every fs operation stays inside the root, every non-staging file holds the complete content of some write"),
+ "C13": ("exploration", "§5 C13", "seeded source trees backed up and restored by the real backup.Manager under seeded file-system faults, remote-backend style failures, a concurrent deleter and process death; oracle: restore of a completed backup is byte-identical or does not report success; skipped files are recorded in the manifest"),
 }
 na = {
  "C01": "pure function of the request bytes (line-protocol parsing/escaping): no schedule, clock, fault or interleaving to simulate",
